@@ -41,11 +41,18 @@ def _gen_c10_cut():
     meths = []
     for bl in G.find_impls('impl Address'):
         d = G.depth[bl['open']] + 1
-        for nm in ('from', 'to_usize', 'offset', 'null'):
-            try:
-                meths.append(G.cut_fn(nm, bl['open'] + 1, bl['end'] - 1, depth=d)['text'])
-            except Exception:
-                pass
+        # every method of `impl Address` that is self-contained (mentions no type but Address/Self and no path)
+        for (nm, _pos) in G.fns_in(bl['open'] + 1, bl['end'] - 1, d):
+            t = G.cut_fn(nm, bl['open'] + 1, bl['end'] - 1, depth=d)['text']
+            body = re.sub(r'//[^\n]*', '', t)
+            idents = set(re.findall(r'\b[A-Z][A-Za-z0-9_]*\b', body)) - {'Address', 'Self'}
+            if idents or '::' in body or '<' in body.split('{')[0]:
+                continue
+            inner = body[body.index('{'):]
+            free_calls = set(re.findall(r'(?<![\.\w])([a-z_][a-z0-9_]*)\(', inner)) - {'if', 'while', 'match', 'for', 'return'}
+            if free_calls:
+                continue
+            meths.append(t)
     out.append('impl Address {\n' + '\n'.join(meths) + '\n}')
     for h in ('impl fmt::Debug for Address', 'impl PartialOrd for Address', 'impl Ord for Address', 'impl From<usize> for Address'):
         bls = G.find_impls(h)
